@@ -18,6 +18,10 @@ pub const ENGINE_A: &str = "heap-history-sim";
 pub const ENGINE_B: &str = "process-sim:heap-log";
 
 pub const SIZES_MB: [usize; 7] = [0, 1, 2, 16, 1024, 65_536, 1_048_576];
+/// In-process only sizes a process can always back as address space: an allocation failure aborts the
+/// whole process by Rust's design, and in-process that process is the orchestrator. The large sizes
+/// run at the process level, where an abort is an observable outcome of the child.
+pub const SIZES_MB_IN_PROCESS: [usize; 5] = [0, 1, 2, 16, 1024];
 
 #[derive(Clone, Debug)]
 pub struct ParsedLog {
@@ -428,7 +432,7 @@ pub fn run(seed: u64, tier: &str, ev: &mut Evidence) -> Vec<Violation> {
         let (spec, allocs) = &specs[i];
         let digest = digest_bytes(spec.source().unwrap_or_default().as_bytes());
         // every heap size of the set for a sample of programs, a random one for the rest
-        let sizes: Vec<usize> = if i % 5 == 0 { SIZES_MB.to_vec() } else { vec![*rng.pick(&SIZES_MB)] };
+        let sizes: Vec<usize> = if i % 5 == 0 { SIZES_MB_IN_PROCESS.to_vec() } else { vec![*rng.pick(&SIZES_MB_IN_PROCESS)] };
         for size_mb in sizes {
             let case = CaseA { spec: spec.clone(), expected_allocs: *allocs, size_mb };
             out.evaluations += 1;
